@@ -145,6 +145,8 @@ pub fn run_check(id: &str, tier: &str) -> i32 {
         "C17" => c17(tier, thorough),
         "C04" => c04(tier, thorough),
         "C16" => c16(tier, thorough),
+        "C05" => c05(tier, thorough),
+        "C11" => c11(tier, thorough),
         _ => {
             eprintln!("unknown check {}", id);
             2
@@ -772,6 +774,52 @@ fn c16(tier: &str, thorough: bool) -> i32 {
     ctx.finish(files.max(1), cases)
 }
 
+fn sweep_all(ctx: &'static Ctx, mode: crate::e5::Mode, thorough: bool, pair_bases: &[&str], only: Option<&[&str]>) -> (u64, u64) {
+    let mut cases = 0u64;
+    let mut scripts = 0u64;
+    for (id, bytes, _) in crate::e5::bases(thorough) {
+        if let Some(only) = only {
+            if !only.contains(&id.as_str()) {
+                continue;
+            }
+        }
+        let pairs = pair_bases.contains(&id.as_str());
+        let st = crate::e5::sweep_base(ctx, mode, &id, thorough, pairs, 16);
+        ctx.note(format!("base {} ({} bytes): cases={} (pairs={}) scripts/opens={} problems={} worker restarts={}", id, bytes.len(), st.cases, pairs, st.scripts, st.problems, st.restarts));
+        cases += st.cases;
+        scripts += st.scripts;
+        ctx.add("worker_restarts", st.restarts);
+        if cases > 0 && ctx.samples.lock().unwrap().len() < 6 {
+            let space = crate::e5::CaseSpace::build(&id, thorough, pairs).unwrap();
+            ctx.sample(json!({"base": id, "case_index": space.len() / 2, "mutation": space.case(space.len() / 2)}));
+        }
+    }
+    (cases, scripts)
+}
+
+fn c05(tier: &str, thorough: bool) -> i32 {
+    let ctx = leak(Ctx::new("C05", tier, "exploration", "e5", &["panic", "hang", "abort", "memory"]));
+    ctx.assume("every case runs in an isolated worker process that announces the case before running it; a stall (10 s, confirmed alone with 60 s), abort or allocation failure is attributed to that case");
+    ctx.assume("memory bound: peak live heap <= 4 MiB + 16 x input length, measured by a counting global allocator in the worker");
+    ctx.set_rule("for each base file (fresh, tree, mixed mini+regular, two directory sectors, full mini container, MiniFAT/FAT fill levels, three synthesised non-canonical layouts, a DIFAT-sector file; v3 and v4): every field-aware single corruption (header fields, DIFAT/FAT/MiniFAT cells, every directory entry field x value alphabet incl. special markers, self+-1, counts; all 8-bit fields through 256 values, 16-bit header fields through all 65536 values on two bases), every truncation at half-sector steps, extensions, and a field-agnostic sweep of every aligned 32-bit word x 16 values; thorough adds all pairs of 32-bit field corruptions on the small bases; script: open in both modes, walk, list, look up, read and seek in every stream. A case is distinct by (base, mutation); non-trivial = differs from the base file");
+    let pair_bases: Vec<&str> = if thorough { vec!["fresh-v3", "tree-v3", "dir2-v3"] } else { vec![] };
+    let (cases, scripts) = sweep_all(ctx, crate::e5::Mode::ReadOnly, thorough, &pair_bases, None);
+    ctx.set("evaluations", cases);
+    ctx.set("distinct_nontrivial", cases);
+    ctx.finish(cases, scripts)
+}
+
+fn c11(tier: &str, thorough: bool) -> i32 {
+    let ctx = leak(Ctx::new("C11", tier, "exploration", "e5", &["panic", "hang", "abort", "memory"]));
+    ctx.assume("every case runs in an isolated worker process (stall limit 30 s, confirmed alone with 60 s)");
+    ctx.set_rule("every single corruption of the C05 enumeration that permissive open accepts x every mutation script up to the depth (quick 1, thorough 2) over: create small / large stream, create storage, create under each storage, rewrite / append / set_len(0, 100, 5000) / remove on each existing stream, remove each storage, remove_storage_all(/), setters, flush; each script starts from a fresh open of the corrupted bytes; oracle: Ok or Err, never a panic, hang or abort");
+    let only: Option<Vec<&str>> = if thorough { None } else { Some(vec!["fresh-v3", "tree-v3", "mixed-v3", "dir2-v3", "minifull-v3", "synth-three-minis-v3", "fresh-v4"]) };
+    let (cases, scripts) = sweep_all(ctx, crate::e5::Mode::Mutating(if thorough { 2 } else { 1 }), thorough, &[], only.as_deref());
+    ctx.set("evaluations", scripts);
+    ctx.set("distinct_nontrivial", cases);
+    ctx.finish(cases, scripts)
+}
+
 fn c18_histories(v: u16, depth: usize, sizes: &[usize]) -> Vec<History> {
     let a = DataAlpha { paths: vec!["/s", "/d/t"], rewrite: sizes.to_vec(), setlen: vec![0, 70, 4096], append: vec![100], patch: vec![(1, 3)], remove: true };
     let mut ops = data_ops(&a);
@@ -870,6 +918,11 @@ pub fn replay(path: &str) -> i32 {
                 }
                 1
             }
+        }
+        "corrupt" => {
+            let mode = case["mode"].as_str().unwrap_or("ro").to_string();
+            let base = case["base"].as_str().unwrap_or("").to_string();
+            crate::e5::replay_case(&mode, &base, case["thorough"].as_bool().unwrap_or(false), case["pairs"].as_bool().unwrap_or(false), case["index"].as_u64().unwrap_or(0))
         }
         "layout" => {
             let c: crate::e2::LayoutCase = match serde_json::from_value(case["layout"].clone()) {
